@@ -40,8 +40,8 @@ ATTR = {
     (PC, 'Extra'): 'extra',
 }
 VALUES = {
-    's': ['one', 'two'], 'i': [-5, 7], 'b': [True, False],
-    'ay': [[1, 2], []], 'u': [3, 4000000000], 'as': [['a'], ['b', 'c']],
+    's': ['one', 'zw\xe9i-\u65e5'], 'i': [-5, 7], 'b': [True, False],
+    'ay': [[1, 2], []], 'u': [3, 4000000000], 'as': [['a'], ['b\xe9', 'c']],
     'o': ['/p', '/q/r'], 'd': [0.5, -2.0],
 }
 BASE_KEYS = [k for k in DECL if k not in ((PA, 'Tags'), (PC, 'Extra'))]
